@@ -257,10 +257,10 @@ CHECKS['C17'] = dict(
 
 CHECKS['C06'] = dict(
     level='model_checking',
-    steps=[dict(name='gdl_lite', py=stream_simple('gdl_lite', 'gdl_lite.py', 'c06_stream'), targets=[('asan', 'c06_stream')])],
+    steps=[dict(name='gdl_lite', py=stream_simple('gdl_lite', 'gdl_lite.py', 'c06_stream', thorough_deadline='6000'), targets=[('asan', 'c06_stream')])],
     rule='GDL-lite programs (gen/gdl_lite.py) compiled to Silf/Glat/Gloc/cmap tables by the synthesiser: (single) every rule with pre-context 0..2 (uniform class), body length 1..3 (total <= 4 quick / 5 thorough) over 3 (thorough 5) overlapping input classes, '
          'at most two body items carrying one action from {put_glyph x|z, delete, insert z, user0=3, advance=777, put_subs([a b]->[x y])}, optional constraint (glyph attribute == v, feature == 1; thorough: on every item); (pair) ordered pairs from a 64-rule core that overlaps on many strings '
-         '(precedence by sort key, by rule order, by constraint; mixed pre-context lengths in one pass); (twopass) substitution pass then positioning pass (shift, advance, user attribute, attachment of an inserted zero-advance mark); (attr_then_pair) a pass setting a user attribute / advance followed by a pass with two core rules (inserted slots must be fresh); (backup_chain) MaxRuleLoop M in 2..5 with k <= M-1 single-slot rules that substitute and resume at their own slot (no progress, the loop limit must not intervene), then a rule spanning 2-3 slots (resuming after it or inside it), then a rule that could match inside that output; (class_lookup) PUT_SUBS through lookup classes of every size 1..8 in two member orders, with and without pre-context, every member substituted alone and in a run; (attr_ops / attr_read) ATTR_ADD / ATTR_SUB / IATTR_ADD on one item of a rule, constraints reading advance / shift of the item itself, of the pre-context item and of the following item, also after a first pass changed them; (direction) RTL fonts and reverse-direction passes. '
+         '(precedence by sort key, by rule order, by constraint; mixed pre-context lengths in one pass); (twopass) substitution pass then positioning pass (shift, advance, user attribute, attachment of an inserted zero-advance mark); (attr_then_pair) a pass setting a user attribute / advance followed by a pass with two core rules (inserted slots must be fresh); (backup_chain) MaxRuleLoop M in 2..5 with k <= M-1 single-slot rules that substitute and resume at their own slot (no progress, the loop limit must not intervene), then a rule spanning 2-3 slots (resuming after it or inside it), then a rule that could match inside that output; (class_lookup) PUT_SUBS through lookup classes of every size 1..8 in two member orders, with and without pre-context, every member substituted alone and in a run; (attr_ops / attr_read) ATTR_ADD / ATTR_SUB / IATTR_ADD on one item of a rule, constraints reading advance / shift of the item itself, of the pre-context item and of the following item, also after a first pass changed them; (direction) RTL fonts and reverse-direction passes. Order: the hand-shaped families first, then the single rules by total length, unconstrained before constrained (1.37 M programs in the thorough tier, about 40 min on 16 cores; a deadline cut would lose the tail of that order and is reported as exhaustive=false). '
          'Every program x every string of length 1..3 (thorough 1..4) over {a,b,c,d} + strings with an unmapped character x dir {0,1} (x feature 0/1 when tested): the reference interpreter (written from doc/GTF.adoc and doc/OpCodes.adoc: longest sort key first then earliest rule, constraint true, in-place stream, cursor after the rule, advance reset on glyph change, '
          'pen accumulation with shift and attachment offsets) must equal the engine on glyph ids, parent indices, advance/shift/user/attach attributes and, for LTR unreversed programs, design-unit origins and the segment advance',
     state_meaning='states = (program, string, direction, feature) evaluations; every one is a reference trace validated against the implementation',
